@@ -408,14 +408,14 @@ func (o seqOp) String() string {
 }
 
 func (e *env) reconfHeights() []int64 {
-	d, wk := int64(57_600), int64(403_200)
+	d, wk := periodBlocks["DAILY"], periodBlocks["WEEKLY"]
 	return []int64{h0, h0 + 1, h0 + d - 1, h0 + d, h0 + wk - 1, h0 + wk}
 }
 
 func (e *env) cfgOf(s limSetting) *limCfg {
 	c := &limCfg{Part: "limit-reconfig", Period: s.Period, Limit: s.Limit, l: limitOf(s.Limit), exemptU1: s.Exempt}
 	c.period = skywaytypes.LimitPeriod(skywaytypes.LimitPeriod_value[s.Period])
-	c.wlen = (&skywaytypes.BridgeTransferLimit{LimitPeriod: c.period}).BlockLimit()
+	c.wlen = periodBlocks[s.Period]
 	c.heights = e.reconfHeights()
 	return c
 }
